@@ -82,9 +82,16 @@ def run(prog, rep):
         """Collect (family_const_on_path, objfield, natfield, through) for copies between object and native."""
         out = []
 
+        famvars = set()
+        for b_, i_, n_ in fn.nodes():
+            if n_["k"] == "asg" and strip_casts(n_["l"])["k"] == "ref":
+                r_ = strip_casts(n_["r"])
+                if r_ is not None and r_["k"] == "member" and r_["field"].endswith("family"):
+                    famvars.add(strip_casts(n_["l"])["name"])
+
         def fam(st):
             for (fk, fop, fv) in st:
-                if fop == "==" and isinstance(fv, int) and (fk == "family" or fk.endswith("->family")):
+                if fop == "==" and isinstance(fv, int) and (fk in famvars or fk.endswith("->family")):
                     return fv
             return None
 
@@ -141,7 +148,7 @@ def run(prog, rep):
 
     fin = u.fn("p_socket_address_new_from_native")
     fout = u.fn("p_socket_address_to_native")
-    in_pairs = pairs_from(fin, lambda v: v == "ret" or v not in (fin.param_names()[0],), {fin.param_names()[0]}, "in")
+    in_pairs = pairs_from(fin, lambda v: v not in (fin.param_names()[0],), {fin.param_names()[0]}, "in")
     alias_out = {fout.param_names()[1]}
     for b, i, n in fout.nodes():
         if n["k"] == "asg" and strip_casts(n["l"])["k"] == "ref" and root_var(n["r"]) in alias_out:
@@ -341,6 +348,12 @@ def bswap16_operand(e):
 def family_stores(fn, u, field):
     """[(stored const, family const known on the path)]"""
     out = []
+    famvars = set()
+    for b_, i_, n_ in fn.nodes():
+        if n_["k"] == "asg" and strip_casts(n_["l"])["k"] == "ref":
+            r_ = strip_casts(n_["r"])
+            if r_ is not None and r_["k"] == "member" and r_["field"].endswith("family"):
+                famvars.add(strip_casts(n_["l"])["name"])
 
     def on_stmt(st, b, i, stmt):
         for n in walk(stmt):
@@ -349,13 +362,16 @@ def family_stores(fn, u, field):
                 if l is not None and l["k"] == "member" and l["field"] == field and cv(n["r"]) is not None:
                     fam = None
                     for (fk, fop, fv) in st:
-                        if fop == "==" and isinstance(fv, int) and (fk == "family" or fk.endswith("->family")):
+                        if fop == "==" and isinstance(fv, int) and (fk in famvars or fk.endswith("->family")):
                             fam = fv
                     out.append((cv(n["r"]), fam))
         return [guards.transfer(st, stmt)]
     Flow(fn, [guards.EMPTY], on_stmt, lambda st, b, to, on: guards.edge_assume(st, b, on)).run()
     return sorted(set(out))
 
+
+# generic robustness battery: renaming every local/parameter in these files must not change any verdict
+RENAME_LOCALS = ['src/psocketaddress.c']
 
 SELFTEST = [
     dict(id="family-read-unguarded-again", file="src/psocketaddress.c", expect="C17.1",
